@@ -16,6 +16,7 @@ RULE = (
     "the subsets of the maximal edges: un-normalised edit distance = number of distinct node sets of size >= min_size "
     "strictly inside an eligible maximal edge that are not edges; simplicial fraction = share of eligible edges all of "
     "whose eligible subsets are edges; mean face edit distance = mean missing-subface share over eligible maximal edges; "
+    "Every measure is also called with its options passed positionally, and everything is evaluated again after an in-place edit of the same hypergraph. "
     "every score in [0,1] or NaN; the three simplicialities equal 1 (or NaN) on downward-closed inputs. non-trivial = two "
     "maximal faces whose intersection has >= min_size nodes and is not an edge (the redundant-missing-face branch)"
 )
@@ -65,6 +66,10 @@ def edge_family(case):
     return out
 
 
+def same_num(a, b):
+    return (isinstance(a, float) and isinstance(b, float) and math.isnan(a) and math.isnan(b)) or a == b
+
+
 def run_case(case, ctx):
     fam = edge_family(case)
     H = xgi.Hypergraph([sorted(e) for e in fam])
@@ -96,6 +101,8 @@ def _evaluate(H, case, ctx):
     else:
         C(got == len(missing), ("edit-distance", "count"), lambda: "%s got %r expected %d" % (tag, got, len(missing)))
     gotn = xgi.simplicial_edit_distance(H, min_size=ms_, exclude_min_size=excl, normalize=True)
+    C(same_num(gotn, xgi.simplicial_edit_distance(H, ms_, excl, True)) and same_num(got, xgi.simplicial_edit_distance(H, ms_, excl, False)),
+      ("edit-distance", "positional-vs-keyword"), lambda: "%s" % tag)
     s_count = sum(1 for e in es if len(e) >= ms_)
     den = s_count - len(elig_max) + len(missing)
     if not elig_max or den <= 0:
@@ -107,6 +114,7 @@ def _evaluate(H, case, ctx):
     # ---- simplicial fraction
     elig = [e for e in es if len(e) >= ms_ + excl]
     sf = xgi.simplicial_fraction(H, min_size=ms_, exclude_min_size=excl)
+    C(same_num(sf, xgi.simplicial_fraction(H, ms_, excl)) and same_num(es_val, xgi.edit_simpliciality(H, ms_, excl)), ("scores", "positional-vs-keyword"), lambda: "%s" % tag)
     if elig:
         want = sum(1 for e in elig if all(frozenset(c) in es for k in range(ms_, len(e)) for c in itertools.combinations(e, k))) / len(elig)
         C(abs(sf - want) < 1e-12, ("simplicial-fraction", "value"), lambda: "%s got %r expected %r" % (tag, sf, want))
@@ -123,6 +131,9 @@ def _evaluate(H, case, ctx):
                 tot += (miss / len(subs)) if (norm and subs) else miss
             want = tot / len(elig_max)
             C(abs(mf - want) < 1e-12, ("mean-face-edit-distance", "value", "normalize=%s" % norm), lambda: "%s got %r expected %r" % (tag, mf, want))
+        # the same call with the options given positionally, in the documented order (H, min_size, exclude_min_size, normalize)
+        mfp = xgi.mean_face_edit_distance(H, ms_, excl, norm)
+        C(same_num(mf, mfp), ("mean-face-edit-distance", "positional-vs-keyword", "normalize=%s" % norm), lambda: "%s keyword %r positional %r" % (tag, mf, mfp))
     fes = xgi.face_edit_simpliciality(H, min_size=ms_, exclude_min_size=excl)
     mfn = xgi.mean_face_edit_distance(H, min_size=ms_, exclude_min_size=excl)
     C(abs(fes - (1 - mfn)) < 1e-12 or (math.isnan(fes) and math.isnan(mfn)), ("face-edit-simpliciality", "one-minus-distance"), lambda: "%s %r %r" % (tag, fes, mfn))
